@@ -70,7 +70,38 @@ def ensure_asan(clean=True):
     os.execve(sys.executable, [sys.executable, os.path.join(HERE, "cli.py")] + sys.argv[1:], env)
 
 
+def reap_symbolizers():
+    """The sanitizer runtime starts an llvm-symbolizer child per reporting process; when that process is killed
+    the symbolizer can survive, holding our stdout/stderr open, and whoever captures the output of this command
+    waits forever. Kill the ones that carry this invocation's log prefix in their environment."""
+    marker = os.environ.get("VERIF_ASAN_LOG")
+    if not marker:
+        return
+    import signal
+
+    for pid in os.listdir("/proc"):
+        if not pid.isdigit() or int(pid) == os.getpid():
+            continue
+        try:
+            with open("/proc/%s/comm" % pid) as f:
+                if not f.read().startswith("llvm-symbolizer"):
+                    continue
+            with open("/proc/%s/environ" % pid, "rb") as f:
+                if ("VERIF_ASAN_LOG=" + marker).encode() not in f.read():
+                    continue
+            os.kill(int(pid), signal.SIGKILL)
+        except (OSError, ValueError):
+            pass
+
+
 def main(argv):
+    try:
+        return _main(argv)
+    finally:
+        reap_symbolizers()
+
+
+def _main(argv):
     if len(argv) >= 2 and argv[0] == "--replay":
         try:
             import json
